@@ -253,12 +253,19 @@ func (g *vcpGen) try(ev *eval.BlockEvaluator, kind string, tx *txntest.Txn) bool
 
 func (g *vcpGen) pick(as []basics.Address) basics.Address { return as[g.r.Intn(len(as))] }
 
-var vcpBoxNames = []string{"a", "ab", "b1", "xyz", "k0", "k1", "long-box-name"}
+// no name is a prefix of another one (and none starts with "q", the directed clash case's names): with zero-length values in
+// the alphabet, box "ab"="" and box "a"="b" would otherwise be an accidental instance of the known finding F2
+var vcpBoxNames = []string{"a1", "m", "b1", "xyz", "k0", "k1", "long-box-name"}
+
+func (g *vcpGen) boxTxn(args ...[]byte) *txntest.Txn {
+	return &txntest.Txn{Type: "appl", Sender: g.pick(g.addrs), ApplicationID: g.h.boxApp, ApplicationArgs: args,
+		Boxes: []transactions.BoxRef{{Index: 0, Name: args[1]}}}
+}
 
 // one random transaction; returns false when the choice was not applicable
 func (g *vcpGen) step(ev *eval.BlockEvaluator) bool {
 	r := g.r
-	switch r.Intn(14) {
+	switch r.Intn(17) {
 	case 0, 1: // payment between genesis accounts
 		a, b := g.pick(g.addrs), g.pick(g.addrs)
 		return g.try(ev, "pay", &txntest.Txn{Type: "pay", Sender: a, Receiver: b, Amount: 1000 + uint64(r.Intn(5_000_000))})
@@ -334,6 +341,9 @@ func (g *vcpGen) step(ev *eval.BlockEvaluator) bool {
 		n, ok := g.boxes[name]
 		if !ok {
 			n = 1 + r.Intn(9)
+			if r.Chance(25) {
+				n = 0 // a box that exists with a zero-length value
+			}
 		}
 		val := r.Bytes(n)
 		tx := txntest.Txn{Type: "appl", Sender: g.pick(g.addrs), ApplicationID: g.h.boxApp,
@@ -356,6 +366,40 @@ func (g *vcpGen) step(ev *eval.BlockEvaluator) bool {
 				delete(g.boxes, name)
 				return true
 			}
+		}
+	case 14: // zero-length value: create an empty box / overwrite an empty box with the empty value
+		name := vcpBoxNames[r.Intn(len(vcpBoxNames))]
+		if n, ok := g.boxes[name]; !ok || n == 0 {
+			if g.try(ev, "box-put-empty", g.boxTxn([]byte("put"), []byte(name), []byte{})) {
+				g.boxes[name] = 0
+				return true
+			}
+		}
+	case 15, 16: // delete and re-create in the SAME block with another size, preferring transitions to / from length 0
+		names := make([]string, 0, len(g.boxes))
+		for n := range g.boxes {
+			names = append(names, n)
+		}
+		sort.Strings(names)
+		if len(names) > 0 {
+			name := names[r.Intn(len(names))]
+			old := g.boxes[name]
+			if !g.try(ev, "box-del", g.boxTxn([]byte("delete"), []byte(name))) {
+				return false
+			}
+			delete(g.boxes, name)
+			n := 0
+			if old == 0 || r.Chance(30) {
+				n = 1 + r.Intn(6)
+			}
+			kind := "box-recreate-empty"
+			if n > 0 {
+				kind = "box-recreate"
+			}
+			if g.try(ev, kind, g.boxTxn([]byte("put"), []byte(name), r.Bytes(n))) {
+				g.boxes[name] = n
+			}
+			return true
 		}
 	case 13: // key registration on / off line
 		a := g.addrs[3+r.Intn(4)]
